@@ -5,12 +5,11 @@
    return; ctx.context_values / ctx.inputs / ctx.stacks / ctx.function_stack are explicit
    and `.pop()` on an empty one is an error, exactly the bookkeeping C12 is about.
 
-   Python scoping: a top-level assignment is a global of the exec namespace (`vars`); the
-   named parameters of a function are locals of its frame (`locs`, looked up first); every
-   def runs in a frame of its own (`locs` empty for lambdas and list items).  Any other
-   assignment inside a def (indef = true) would create a local too: not covered, ENotCore.
-   A nested def that reads a parameter of an enclosing function would go through a closure
-   cell: excluded statically by Values.scope_ok.  A function value is only ever entered when its body is in the
+   Python scoping: a top-level assignment is a global of the exec namespace (`vars`); a name
+   assigned anywhere in a def (variable set, named loop variable, function definition, named
+   parameter) is a local of that def: each call of a def with locals allocates a frame in
+   `heap`, a function value keeps the frames of the defs it was defined in (its closure cells),
+   `cur` is what the running code sees.  Reads / calls by name follow Values.lookup_var.  A function value is only ever entered when its body is in the
    core (`core_ok_list true`), else ENotCore -- closures are built from the program text,
    so for a core program this never fires (checked on every correspondence run).
    Early exits: a statement list ends with a signal (Values.sig).  X / x are lowered as
@@ -51,7 +50,7 @@ Definition rec_t := bool -> list struct -> state -> fres.
 
 (* switching to a callee's frame and back: its own `stack`, locals and `this` *)
 Definition leave_frame (caller : state) (s : state) : state :=
-  set_this (set_locs (set_stk s (stk caller)) (locs caller)) (this caller).
+  set_this (set_cur (set_stk s (stk caller)) (cur caller)) (this caller).
 
 Section Step.
   Variable cf : cfg.
@@ -62,7 +61,7 @@ Section Step.
      popped = what wrapify(arg_stack, n, ctx) popped, in popping order = the new `stack` list *)
   Definition m_lambda_body (self : option closure) (c : closure) (popped : list value) (s0 : state)
     : xres (value * state) :=
-    let s := set_this (set_locs (set_stk s0 (rev popped)) []) self in   (* a new frame; stack = wrapify(..); this = self *)
+    let s := set_this (enter_def (decl_of c) (c_env c) (set_stk s0 (rev popped))) self in   (* a new frame; stack = wrapify(..); this = self *)
     let s := m_fstack_push self s in                               (* ctx.function_stack.append(this) *)
     let s := m_ctx_push (context_of popped) s in                   (* ctx.context_values.append(list(stack) if len(stack) != 1 else stack[0]) *)
     let s := m_inputs_push (rev popped, O) s in                    (* ctx.inputs.append([list(deep_copy(stack))[::-1], 0]) *)
@@ -85,7 +84,7 @@ Section Step.
     | PNum n :: r =>                                               (* parameters += wrapify(arg_stack, n, ctx) *)
         let (s1, popped) := popn n s in m_params r (acc ++ popped) loc s1
     | PName x :: r =>                                              (* VAR_<x> =pop(arg_stack, 1, ctx=ctx): a local of this def *)
-        let (s1, v) := pop1 s in m_params r acc (assign x v loc) s1
+        let (s1, v) := pop1 s in m_params r acc (loc ++ [(x, v)]) s1
     | PStar :: r =>                                                (* parameters += wrapify(arg_stack, pop(arg_stack, 1, ctx=ctx), ctx=ctx) *)
         xdo (s1, popped) <- of_opt (pop_star s); m_params r (acc ++ popped) loc s1
     end.
@@ -94,11 +93,14 @@ Section Step.
      frame with what is left of arg_stack *)
   Definition m_named_body (c : closure) (s : state) : xres (list value * state) :=
     xdo (s0, parameters, loc) <- m_params (c_params c) [] [] s;    (* parameters = []; the parameter lines *)
-    let s := set_this (set_locs (set_stk s0 (rev parameters)) loc) (Some c) in   (* stack = parameters[::] *)
+    let s := enter_def (decl_of c) (c_env c) (set_stk s0 (rev parameters)) in   (* the new frame; stack = parameters[::] *)
+    let s := bind_params loc s in                                  (* the VAR_<x> = ... of the parameter lines *)
     let s := m_ctx_push (VList parameters) s in                    (* ctx.context_values.append(parameters[::]) *)
     let s := m_stacks_push s in                                    (* ctx.stacks.append(stack) *)
     let s := m_inputs_push (rev parameters, O) s in                (* ctx.inputs.append([parameters[::-1], 0]) *)
-    xdo (g, s) <- rec true (c_body c) s;                           (* this = VAR_<f>; the body *)
+    xdo f <- of_name (lookup_var (c_name c) s);                    (* this = VAR_<f> *)
+    let s := set_this s (match f with VFun c' => Some c' | _ => None end) in
+    xdo (g, s) <- rec true (c_body c) s;                           (* the body *)
     match g with
     | SNorm =>
         xdo s <- m_ctx_pop s;                                      (* ctx.context_values.pop() *)
@@ -151,8 +153,8 @@ Section Step.
           match lookup_var (tv t) s with Some v => XOk (push v s) | None => XErr EName end
         else XErr ENotCore
     | KVarSet =>                                                   (* VAR_<x> = pop(stack, 1, ctx=ctx) *)
-        if name_ok (tv t) && negb indef then
-          let (s1, v) := pop1 s in XOk (set_vars s1 (assign (tv t) v (vars s1)))
+        if name_ok (tv t) then
+          let (s1, v) := pop1 s in XOk (assign_var (tv t) v s1)
         else XErr ENotCore
     | KString | KCharacter | KCompString =>                       (* stack.append("<text>") / stack.append('<c>') *)
         match string_value t with Some v => XOk (push (VStr v) s) | None => XErr ENotCore end
@@ -226,7 +228,7 @@ Section Step.
     match items with
     | [] => XOk (SNorm, s)
     | x :: r =>
-        let s := match var with Some v => set_vars s (assign v x (vars s)) | None => s end in   (* VAR = next item *)
+        let s := match var with Some v => assign_var v x s | None => s end in   (* VAR = next item *)
         let s := m_ctx_push x s in                                 (*     ctx.context_values.append(VAR) *)
         xdo (g, s) <- run body s;                                  (*     <body> *)
         match g with
@@ -244,10 +246,10 @@ Section Step.
     | [] => XOk (temp, s)
     | x :: r =>
         (* def list_item(s, ctx): stack = list(deep_copy(s)); the item runs in a frame of its own *)
-        xdo (g, s1) <- run x (set_locs s []);
+        xdo (g, s1) <- run x (enter_def (assigned_list x) (cur s) s);
         match g with
         | SNorm =>
-            let back := set_locs (set_stk s1 (stk s)) (locs s) in
+            let back := set_cur (set_stk s1 (stk s)) (cur s) in
             match stk s1 with
             | [] => m_items run r temp back                        (*     if len(stack) == 0: return *)
             | v :: _ => m_items run r (temp ++ [v]) back           (*     return pop(stack, 1, ctx=ctx); if f is not None: temp_list.append(f) *)
@@ -257,7 +259,7 @@ Section Step.
     end.
 
   (* wrapped operand of a modifier: the def, `stack.append(_lambda_<id>)`, then function_X = pop(stack, 1, ctx) *)
-  Definition m_operand (x : struct) (s : state) : state * value := pop1 (push (VFun (operand_closure x)) s).
+  Definition m_operand (x : struct) (s : state) : state * value := pop1 (push (VFun (operand_closure x (cur s))) s).
 
   Definition m_step (indef : bool) (x : struct) (s : state) : fres :=
     match x with
@@ -272,7 +274,7 @@ Section Step.
             xdo items <- of_opt (iter_range cf v);
             m_for (rec indef) None body items s1
         | n :: _ =>
-            if name_ok (keep re_keep_for n) && negb indef then
+            if name_ok (keep re_keep_for n) then
               let (s1, v) := pop1 s in
               xdo items <- of_opt (iter_range cf v);
               m_for (rec indef) (Some (keep re_keep_for n)) body items s1
@@ -295,16 +297,16 @@ Section Step.
           end
         else XErr ENotCore
     | SFnDef n ps body =>                                          (* def VAR_<f>(arg_stack, self, arity=-1, ctx=None): *)
-        if negb indef && name_ok (keep re_keep_fndef n) then
+        if name_ok (keep re_keep_fndef n) then
           match params_of ps with
-          | Some params => XOk (SNorm, set_vars s (assign (keep re_keep_fndef n) (VFun (mk_named params body)) (vars s)))
+          | Some params => XOk (SNorm, assign_var (keep re_keep_fndef n) (VFun (mk_named (keep re_keep_fndef n) params body (cur s))) s)
           | None => XErr ENotCore
           end
         else XErr ENotCore
     | SLambda a body =>                                            (* def _lambda_<id>...; _lambda_<id>.arity = a; stack.append(_lambda_<id>) *)
-        XOk (SNorm, push (VFun (mk_lambda a body)) s)
+        XOk (SNorm, push (VFun (mk_lambda a body (cur s))) s)
     | SLamOp o body =>
-        let s1 := push (VFun (mk_lambda (Some 1) body)) s in
+        let s1 := push (VFun (mk_lambda (Some 1) body (cur s))) s in
         match o with
         | OpMap => norm (elem_sem cf m_app m_callstk 77%N s1)      (* the template of M *)
         | OpFilter => norm (elem_sem cf m_app m_callstk 70%N s1)   (* the template of F *)
